@@ -197,9 +197,12 @@ func headPropagation(c *Ctx, rule string, r *mapRoles) {
 	c.R.Floor(rule, 3)
 }
 
-func runC10(c *Ctx) {
+func runC10(c *Ctx) { mapRules(c, "C10.R") }
+
+// mapRules runs the structural rules of the ordered map under the rule-id prefix pfx (C10.R, C08.M).
+func mapRules(c *Ctx, pfx string) {
 	r := resolveMapRoles(c)
-	headPropagation(c, "C10.R1", r)
+	headPropagation(c, pfx+"1", r)
 
 	// R2 recycle only dead nodes
 	for _, fn := range c.P.FuncsOf("container/iterable") {
@@ -214,10 +217,10 @@ func runC10(c *Ctx) {
 			}
 			guarded := c.refZeroGuarded(r, fn, call.Block(), arg, 0)
 			if !guarded {
-				c.Decide("C10.R2", fn, "pool.Put(node)", call, false, "the node is recycled on a path where its reference count is not tested to be zero (neither here nor at every call site of this helper): an iterator may still point to it")
+				c.Decide(pfx+"2", fn, "pool.Put(node)", call, false, "the node is recycled on a path where its reference count is not tested to be zero (neither here nor at every call site of this helper): an iterator may still point to it")
 				return
 			}
-			c.NoPath("C10.R2", "pool.Put(node)", call, ir.Query{Fn: fn,
+			c.NoPath(pfx+"2", "pool.Put(node)", call, ir.Query{Fn: fn,
 				Block: func(x ssa.Instruction) bool {
 					cl, ok := x.(*ssa.Call)
 					return ok && ir.StaticCallee(cl) == r.unlink && same(cl.Call.Args[0], arg)
@@ -226,7 +229,7 @@ func runC10(c *Ctx) {
 			}, "the node is recycled without having been unlinked")
 		})
 	}
-	c.R.Floor("C10.R2", 3)
+	c.R.Floor(pfx+"2", 3)
 
 	// R3 index and list in pairs
 	{
@@ -241,10 +244,10 @@ func runC10(c *Ctx) {
 		}
 		puts := callsTo(fn, r.putVal)
 		if len(puts) == 0 {
-			c.Decide("C10.R3", fn, "append+index", nil, false, "Add does not call the list append routine")
+			c.Decide(pfx+"3", fn, "append+index", nil, false, "Add does not call the list append routine")
 		}
 		for _, pc := range puts {
-			c.NoPath("C10.R3", "append+index", pc, ir.Query{Fn: fn, From: pc, Block: isIdxStore, Target: ir.IsExit},
+			c.NoPath(pfx+"3", "append+index", pc, ir.Query{Fn: fn, From: pc, Block: isIdxStore, Target: ir.IsExit},
 				"an entry is appended to the list but not stored into the index")
 		}
 		fn = r.remFn
@@ -258,23 +261,23 @@ func runC10(c *Ctx) {
 		}
 		uns := callsTo(fn, r.unlink)
 		if len(uns) == 0 {
-			c.Decide("C10.R3", fn, "unlink+index-delete", nil, false, "Remove does not call the unlink routine")
+			c.Decide(pfx+"3", fn, "unlink+index-delete", nil, false, "Remove does not call the unlink routine")
 		}
 		for _, uc := range uns {
-			c.NoPath("C10.R3", "unlink+index-delete", uc, ir.Query{Fn: fn, From: uc, Block: isIdxDel, Target: ir.IsExit},
+			c.NoPath(pfx+"3", "unlink+index-delete", uc, ir.Query{Fn: fn, From: uc, Block: isIdxDel, Target: ir.IsExit},
 				"an entry is unlinked but stays in the index")
 		}
 		// and the other direction: no index delete without unlink
 		ir.Instrs(fn, func(x ssa.Instruction) {
 			if isIdxDel(x) {
-				c.NoPath("C10.R3", "index-delete-after-unlink", x, ir.Query{Fn: fn,
+				c.NoPath(pfx+"3", "index-delete-after-unlink", x, ir.Query{Fn: fn,
 					Block:  func(y ssa.Instruction) bool { return isCallTo(y, r.unlink) },
 					Target: func(y ssa.Instruction) bool { return y == x }},
 					"an entry is deleted from the index without being unlinked from the list")
 			}
 		})
 	}
-	c.R.Floor("C10.R3", 3)
+	c.R.Floor(pfx+"3", 3)
 
 	// R4 iterator accounting
 	{
@@ -297,11 +300,11 @@ func runC10(c *Ctx) {
 				}
 			})
 		}
-		c.Decide("C10.R4", fn, "refcount+1 on start node", nil, ok, detail)
+		c.Decide(pfx+"4", fn, "refcount+1 on start node", nil, ok, detail)
 
 		cf := r.closeFn
 		isRel := func(x ssa.Instruction) bool { return isCallTo(x, r.release) }
-		c.NoPath("C10.R4", "Close releases", nil, ir.Query{Fn: cf, Block: isRel, Target: ir.IsExit}, "Close can return without releasing the cursor")
+		c.NoPath(pfx+"4", "Close releases", nil, ir.Query{Fn: cf, Block: isRel, Target: ir.IsExit}, "Close can return without releasing the cursor")
 		twice := false
 		for _, rc := range callsTo(cf, r.release) {
 			if w, _ := (ir.Query{Fn: cf, From: rc, Target: isRel}).Find(); w != nil {
@@ -309,11 +312,11 @@ func runC10(c *Ctx) {
 			}
 			// argument is the cursor
 			if _, isCur := loadOfField(rc.Call.Args[1], r.itPtr); !isCur {
-				c.Decide("C10.R4", cf, "Close releases the cursor", rc, false, "the released node is not the iterator's cursor")
+				c.Decide(pfx+"4", cf, "Close releases the cursor", rc, false, "the released node is not the iterator's cursor")
 			}
 		}
-		c.Decide("C10.R4", cf, "Close releases once", nil, !twice, "the release routine can run twice in one Close")
-		c.NoPath("C10.R4", "Close clears cursor", nil, ir.Query{Fn: cf,
+		c.Decide(pfx+"4", cf, "Close releases once", nil, !twice, "the release routine can run twice in one Close")
+		c.NoPath(pfx+"4", "Close clears cursor", nil, ir.Query{Fn: cf,
 			Block: func(x ssa.Instruction) bool {
 				_, v, ok := storeToField(x, r.itPtr)
 				return ok && ir.IsNilConst(v)
@@ -328,7 +331,7 @@ func runC10(c *Ctx) {
 		ir.Instrs(fn, func(in ssa.Instruction) {
 			if _, ok := isFieldDelta(in, r.refCnt, 1); ok {
 				incs++
-				c.NoPath("C10.R5", "ref+1 preceded by ref-1", in, ir.Query{Fn: fn,
+				c.NoPath(pfx+"5", "ref+1 preceded by ref-1", in, ir.Query{Fn: fn,
 					Block:  func(x ssa.Instruction) bool { _, ok := isFieldDelta(x, r.refCnt, -1); return ok },
 					Target: func(x ssa.Instruction) bool { return x == in }},
 					"the cursor moves to the next node without giving up the reference on the previous one")
@@ -340,7 +343,7 @@ func runC10(c *Ctx) {
 		// every path from a -1 to an exit or to the next -1 passes a +1 (the new cursor is referenced)
 		ir.Instrs(fn, func(in ssa.Instruction) {
 			if _, ok := isFieldDelta(in, r.refCnt, -1); ok {
-				c.NoPath("C10.R5", "ref-1 followed by ref+1", in, ir.Query{Fn: fn, From: in,
+				c.NoPath(pfx+"5", "ref-1 followed by ref+1", in, ir.Query{Fn: fn, From: in,
 					Block: func(x ssa.Instruction) bool { _, ok := isFieldDelta(x, r.refCnt, 1); return ok },
 					Target: func(x ssa.Instruction) bool {
 						if ir.IsExit(x) {
@@ -353,11 +356,12 @@ func runC10(c *Ctx) {
 			}
 		})
 		if incs == 0 || decs == 0 {
-			c.Decide("C10.R5", fn, "advance keeps reference counts", nil, false, "the advance routine has no reference count increment/decrement")
+			c.Decide(pfx+"5", fn, "advance keeps reference counts", nil, false, "the advance routine has no reference count increment/decrement")
 		}
 	}
-	c.R.Floor("C10.R5", 2)
-	c.payloadAndCursorDiscipline(r, "C10.R6", "C10.R7")
+	c.R.Floor(pfx+"5", 2)
+	c.payloadAndCursorDiscipline(r, pfx+"6", pfx+"7")
+	c.linkCensus(r, pfx+"8")
 }
 
 func runC11(c *Ctx) {
@@ -606,4 +610,39 @@ func (c *Ctx) payloadAndCursorDiscipline(r *mapRoles, ruleRead, ruleCursor strin
 	}
 	_ = nReads
 	_ = nCursor
+}
+
+// linkCensus is C10.R8: the list links (node-pointer fields of the node) are written only by the node's own
+// methods; list surgery elsewhere (a bulk clear, a fast path) bypasses the head/sentinel bookkeeping.
+func (c *Ctx) linkCensus(r *mapRoles, rule string) {
+	links := fieldsWhere(r.node, func(f *types.Var) bool { return namedOf(f.Type()) == r.node })
+	isLink := func(f *types.Var) bool {
+		for _, l := range links {
+			if l == f {
+				return true
+			}
+		}
+		return false
+	}
+	n := 0
+	for _, fn := range c.P.FuncsOf("container/iterable") {
+		own := fn.Signature.Recv() != nil && namedOf(fn.Signature.Recv().Type()) == r.node
+		ir.Instrs(fn, func(in ssa.Instruction) {
+			st, ok := in.(*ssa.Store)
+			if !ok {
+				return
+			}
+			fa, ok := st.Addr.(*ssa.FieldAddr)
+			if !ok || !isLink(ir.FieldOf(fa)) {
+				return
+			}
+			// stores into a node that is being constructed in this function are initialisation
+			if _, fresh := ir.Resolve(fa.X).(*ssa.Alloc); fresh {
+				return
+			}
+			n++
+			c.Decide(rule, fn, "list link written by a node method", in, own, "a prev/next link is rewired outside the node's own methods: the head/sentinel bookkeeping (head is the node without predecessor) is bypassed")
+		})
+	}
+	c.R.Floor(rule, 4)
 }
